@@ -16,8 +16,10 @@ def nunique (col : List Cell) : Nat := (dedupBy Cell.pyEq (col.filter (fun c => 
     all missing values (None, NaN, pd.NA) together count as one value -/
 def uniqueCount (col : List Cell) : Nat := nunique col + (if missingCount col > 0 then 1 else 0)
 
-/-- `round(float(k) / float(n) * 100, 2)` as an exact rational (a double) -/
+/-- `round(float(k) / float(n) * 100, 2)` as an exact rational (a double); `0.0` for a table without rows
+    (`if num_rows > 0: … else: 0.0`, /repo 39fa1bc: no division is evaluated then) -/
 def percent (k n : Nat) : PyV :=
+  if n = 0 then .float 0 else
   PyV.round (PyV.mul (PyV.div (PyV.toFloat (.int k)) (PyV.toFloat (.int n))) (.int 100)) (.int 2)
 
 /-- `str(x)` of a double produced by `round(·, 2)` in [0, 100]: the shortest repr is the decimal
@@ -39,7 +41,8 @@ def comment (unique missing n : Nat) (fmtMissing : String) : String :=
   else if missing > 0 then s!"Joining on this attribute will ignore {fmtMissing} rows."
   else ""
 
-/-- (unique stat, missing stat, comments) of one profiled column (non-empty table) -/
+/-- (unique stat, missing stat, comments) of one profiled column; for a table without rows:
+    `("0 (0.0%)", "0 (0.0%)", "This attribute can be used as a key attribute.")` -/
 def profileColumn (col : List Cell) : String × String × String :=
   let n := col.length
   let u := uniqueCount col
@@ -50,7 +53,8 @@ def profileColumn (col : List Cell) : String × String × String :=
 
 /-- `profile_table_for_join(input_table, profile_attrs)`: one row (attribute, unique stat, missing stat, comments) per
     profiled attribute, in request order (all columns when `profile_attrs` is None); a non-DataFrame raises TypeError,
-    an unknown attribute AssertionError, an empty table ZeroDivisionError (`float(k) / float(0)`) -/
+    an unknown attribute AssertionError; a table without rows is profiled like any other (percentages `0.0`,
+    /repo 39fa1bc: it used to raise ZeroDivisionError from `float(k) / float(0)`) -/
 def profileTable (t : Option Frame) (attrs : Option (List String)) : Except PyErr (List (String × String × String × String)) := do
   let f ← validateInputTable t
   let use ← match attrs with
@@ -58,7 +62,6 @@ def profileTable (t : Option Frame) (attrs : Option (List String)) : Except PyEr
     | some l => do
         l.forM (fun a => validateAttr a f)
         pure l
-  if f.rows.length = 0 && !use.isEmpty then throw PyErr.zeroDiv
   return use.map (fun a => let p := profileColumn (f.col a); (a, p.1, p.2.1, p.2.2))
 
 end SSJ.Profiler
